@@ -285,3 +285,9 @@ Proof.
   - split; [now apply wrap_in_range | now apply (wrap_congr 32 a)].
   - intro. now apply wrap_id.
 Qed.
+
+Lemma idiv_not_sigfpe : forall n a b, idiv n a b <> ISigFpe.
+Proof. intros. unfold idiv. destruct (b =? 0); [discriminate|]. destruct (b =? -1); discriminate. Qed.
+
+Lemma imod_not_sigfpe : forall n a b, imod n a b <> ISigFpe.
+Proof. intros. unfold imod. destruct (b =? 0); [discriminate|]. destruct (b =? -1); discriminate. Qed.
